@@ -51,6 +51,10 @@ pub mod mock {
         RDV_ON.store(false, SeqCst);
     }
     pub fn set(script: Vec<u128>, dflt: u128) { let mut c = CLOCK.lock().unwrap(); c.script = script; c.pos = 0; c.dflt = dflt; c.log.clear(); }
+    // a wait requested by generated code (`std::thread::sleep` is redirected here): recorded, not performed
+    pub static SLEPT: Mutex<Vec<u128>> = Mutex::new(Vec::new());
+    pub fn sleep(d: Duration) { SLEPT.lock().unwrap().push(d.0); }
+    pub fn take_slept() -> Vec<u128> { std::mem::take(&mut *SLEPT.lock().unwrap()) }
     pub fn pos() -> usize { CLOCK.lock().unwrap().pos }
     pub fn log() -> Vec<(u64, usize)> { CLOCK.lock().unwrap().log.clone() }
     impl SystemTime {
@@ -107,6 +111,8 @@ macro_rules! driver_min { () => {
         let f: Vec<&str> = line.split(' ').collect();
         match f[0] {
             "call" => { crate::mock::set(crate::nums(f[2]), f[1].parse().unwrap()); let h = mk(); format!("{} {}", h.nanos(), crate::mock::pos()) }
+            // slept: the waits generated code asked for since the last `slept` (nanoseconds)
+            "slept" => { let v: Vec<String> = crate::mock::take_slept().iter().map(|x| x.to_string()).collect(); format!("slept {}", v.join(",")) }
             // conc / concr <k> <dflt> <readings>   k threads call debut() at once (concr: the clock makes the first two readers meet)
             "conc" | "concr" => {
                 let k: u64 = f[1].parse().unwrap();
@@ -135,6 +141,7 @@ macro_rules! driver { () => {
                 let h = mk();
                 format!("{} {}", h.inter_get_debut().nanos(), crate::mock::pos())
             }
+            "slept" => { let v: Vec<String> = crate::mock::take_slept().iter().map(|x| x.to_string()).collect(); format!("slept {}", v.join(",")) }
             // conc <k> <dflt> <readings>        k threads call the constructor at once, one shared script
             "conc" => {
                 let k: u64 = f[1].parse().unwrap();
@@ -205,6 +212,7 @@ def retarget(text, mock):
     t = rs.render(rs.parse(text))
     if mock:
         t = re.sub(r"(:: )?\bstd :: time :: (SystemTime|Duration)\b", r"crate :: mock :: \2", t)
+        t = re.sub(r"(:: )?\bstd :: thread :: sleep\b", r"crate :: mock :: sleep", t)
     return t
 
 
